@@ -77,6 +77,8 @@ def reaction_lists(tier):
         dict(reactants=['A', 'B', 'C'], products=['A'], kind='massaction', k=0.2),
         dict(reactants=['B', 'B', 'A'], products=['C', 'C', 'C'], kind='massaction', k=0.3),
         dict(reactants=[], products=[], kind='massaction', k=1.0),
+        dict(reactants=['C'], products=['A'], kind='massaction', k='kf'),
+        dict(reactants=['B', 'C'], products=['A'], kind='massaction', k=0.7),
     ]
     out = []
     for k in ((2,) if tier == 'quick' else (2, 3)):
@@ -96,12 +98,33 @@ def declarations():
     d.append(('ic-only', None))
     d.append(('ic-only-reversed', None))
     d.append(('incremental', None))
+    d.append(('shared-dict-constructor', None))
+    d.append(('shared-dict-create', None))
     return d
 
 
 def build(rxs, decl):
     from bioscrape.types import Model
     how, order = decl
+    if how in ('shared-dict-constructor', 'shared-dict-create'):
+        # the caller re-uses ONE parameter dictionary object for several mass-action reactions (p = {'k': ...})
+        params = list(PARAMS.items())
+        ic = {s: STATES[0][s] for s in POOL}
+        shared = {}
+        tuples = []
+        for r in rxs:
+            t = list(reaction_tuple(r))
+            if r['kind'] == 'massaction' and 'ma_species' not in r:
+                d = shared.setdefault(repr(r['k']), {'k': r['k']})
+                t[3] = d
+            tuples.append(tuple(t))
+        if how == 'shared-dict-constructor':
+            return Model(species=list(POOL), reactions=tuples, parameters=params, initial_condition_dict=ic)
+        m = Model(species=list(POOL), parameters=params, initial_condition_dict=ic)
+        for t in tuples:
+            m.create_reaction(*t)
+        m.py_initialize()
+        return m
     if how == 'incremental':
         # the first reaction at construction, an initialisation, then the others one by one (each edit invalidates the model)
         params = list(PARAMS.items())
@@ -134,7 +157,7 @@ def check_model(c, item):
     try:
         m = build(rxs, decl)
     except Exception as e:
-        if decl[0] in ('explicit', 'incremental'):
+        if decl[0] in ('explicit', 'incremental', 'shared-dict-constructor', 'shared-dict-create'):
             c.violation(key + 'build-exception', 'a valid reaction list with every species declared was rejected: %r' % e, case)
         else:
             c.count('rejected_undeclared')   # a rate refers to a species that this declaration style has not declared yet
@@ -255,7 +278,7 @@ def run(ctx):
     ctx.rule = ('E2: single reactions with every reactant x product sequence of length 0..4 over {A,B,C} (quick: 0..3, thinned beyond total '
                 'length 3), every propensity type x delay type x delayed reactant/product lists; ordered pairs (thorough: triples) from a '
                 '12-reaction menu; each under all declaration styles (6 explicit permutations, implicit by the reactions, via the initial '
-                'condition dictionary in two orders, and incrementally: first reaction, initialise, then each further reaction followed by an initialisation). Oracle: update arrays equal products minus reactants counted with multiplicity '
+                'condition dictionary in two orders, incrementally: first reaction, initialise, then each further reaction followed by an initialisation; and with one parameter dictionary object shared by all mass-action reactions of equal k, through the constructor and through create_reaction). Oracle: update arrays equal products minus reactants counted with multiplicity '
                 '(exact), derivative equals (S+Sd).rate with closed-form rates at 5 states x 2 times (1e-12). Missing value: for every '
                 'parameter position a reaction can mention, the model without that value must fail to initialise, build an interface or '
                 'simulate. states = models; non-trivial = derivative non-zero somewhere; distinct by (reaction list, declaration).')
